@@ -102,6 +102,15 @@ type FieldConstraint struct {
 	ft   types.Type
 }
 
+// Predicate: a named contract formula (macro), evaluated in the state of its use.
+type Predicate struct {
+	Name   string
+	Params []string
+	Src    string
+	Expr   ast.Expr
+	Pkg    string
+}
+
 type ConstPin struct {
 	Pkg, Name, Lit string
 	File        string
@@ -116,6 +125,7 @@ type ContractFile struct {
 	Pins      []*ConstPin
 	AtomicInvs []*AtomicInv
 	FieldCons  []*FieldConstraint
+	Predicates []*Predicate
 	Recursive map[string]bool
 	Pure      map[string]bool
 }
@@ -202,6 +212,15 @@ func parseContractText(text, path, pkgPath string) (*ContractFile, error) {
 		case "recursive":
 			flush()
 			cf.Recursive[rest] = true
+		case "predicate":
+			// predicate name(p1 T1, p2 T2): <expr>   (a named formula usable in contracts; may use quantifiers)
+			flush()
+			cur = nil
+			k := strings.Index(rest, "):")
+			if k < 0 {
+				return nil, fmt.Errorf("%s:%d: bad predicate", path, i+1)
+			}
+			pd = &pend{"pred:" + strings.TrimSpace(rest[:k+1]), rest[k+2:], i + 1}
 		case "field-constraint":
 			// field-constraint <Type>.<field>: <expr over new, old>   (two-state invariant of a heap field)
 			flush()
@@ -274,6 +293,24 @@ func (cf *ContractFile) addClause(c *Contract, kw, text, path string, line int) 
 			return nil, fmt.Errorf("cannot parse %q: %v", src, err)
 		}
 		return &Clause{Src: src, Expr: e, File: path, Line: line}, nil
+	}
+	if strings.HasPrefix(kw, "pred:") {
+		hdr := kw[5:]
+		op := strings.Index(hdr, "(")
+		name := strings.TrimSpace(hdr[:op])
+		var params []string
+		for _, prm := range splitTop(hdr[op+1:len(hdr)-1], ',') {
+			f := strings.Fields(strings.TrimSpace(prm))
+			if len(f) >= 1 {
+				params = append(params, f[0])
+			}
+		}
+		e, err := parseSpecExpr(text)
+		if err != nil {
+			return fmt.Errorf("cannot parse predicate %q: %v", text, err)
+		}
+		cf.Predicates = append(cf.Predicates, &Predicate{Name: name, Params: params, Src: text, Expr: e, Pkg: cf.Pkg})
+		return nil
 	}
 	if strings.HasPrefix(kw, "fieldc:") {
 		e, err := parseSpecExpr(text)
@@ -1229,6 +1266,27 @@ func (e *CEnv) evalCall(n *ast.CallExpr) (Value, types.Type) {
 			i := e.idx(n.Args[1])
 			ln := e.idx(n.Args[2])
 			return Scalar{p.strOfBytes(e.st, SliceV{Ref: s.Ref, Off: BVAdd(s.Off, i), Len: ln, Cap: ln, Elem: s.Elem})}, types.Typ[types.String]
+		}
+		if pr := p.eng.predicates[id.Name]; pr != nil {
+			if len(n.Args) != len(pr.Params) {
+				e.fail("predicate %s needs %d arguments", pr.Name, len(pr.Params))
+			}
+			ne := *e
+			ne.vars = map[string]cvar{}
+			for k, v := range e.vars {
+				ne.vars[k] = v
+			}
+			for i, a := range n.Args {
+				v, t := e.eval(a)
+				v, t = materialize(v, t)
+				ne.vars[pr.Params[i]] = cvar{v, t}
+			}
+			if sp := p.eng.spkgs[pr.Pkg]; sp != nil {
+				ne.pkg = sp.Pkg
+			}
+			return ne.eval(pr.Expr)
+		}
+		switch id.Name {
 		case "unchanged":
 			// unchanged(s): the backing array of slice s holds the same elements as in the pre-state
 			v, _ := e.eval(n.Args[0])
